@@ -516,7 +516,6 @@ def assemble(ctx, prop, rng, thorough, scope):
     duals = gen_orders(ctx, "all", dual=True, simulate=700 if thorough else 250, seed=ctx.seed + 2, scn="tetra")
     duals += gen_orders(ctx, "all", select=True, maxpre=2, dual=True, simulate=900 if thorough else 350, seed=ctx.seed + 3, scn="tetra")
     duals = [h for h in duals if any(s[0] == "dual" for s in h)]
-    ctx.note("orders", {"core_permutations": len(perms), "simulated_all": len(sims), "simulated_with_selection": len(sels), "simulated_with_dual": len(duals)})
     rng.shuffle(duals)
     duals = duals[: 1500 if thorough else 600]
     rng.shuffle(sims)
@@ -524,6 +523,7 @@ def assemble(ctx, prop, rng, thorough, scope):
     # -simulate prints a terminal state once per worker that reaches it: keep the requested numbers
     sims = sims[: 1000 if thorough else 300]
     sels = sels[: 2500 if thorough else 900]
+    ctx.note("orders", {"core_permutations": len(perms), "simulated_all": len(sims), "simulated_with_selection": len(sels), "simulated_with_dual": len(duals)})
     cat = catalogue_pool()
     cat_small = [s for s in cat if len(s["mesh"]) <= 15]
     planar = planar_pool(rng, 24 if thorough else 8, 7 if thorough else 5)
@@ -539,7 +539,7 @@ def assemble(ctx, prop, rng, thorough, scope):
     pool_o = list(scope) + cat_small
     rng.shuffle(pool_o)
     if len(perms) <= 200:
-        n_full = 24 if thorough else 10
+        n_full = 16 if thorough else 10
         for k, src in enumerate(pool_o[:n_full]):
             for xw in (0, 1 + k % 2):
                 for j, h in enumerate(perms):
@@ -620,7 +620,6 @@ def assemble(ctx, prop, rng, thorough, scope):
 SAMPLE_FILES = [
     # (path under /repo/test/meshfiles, use_dual, closed sphere, MPAS conventions or None)
     ("ugrid/quad-hexagon/grid.nc", False, False, None),
-    ("ugrid/ov_RLL10deg_CSne4/ov_RLL10deg_CSne4.ug", False, False, None),
     ("exodus/outCSne8/outCSne8.g", False, True, None),
     ("exodus/mixed/mixed.exo", False, False, None),
     ("scrip/outCSne8/outCSne8.nc", False, False, None),  # coincident corners are not merged along cube edges: not closed as a table
